@@ -125,7 +125,8 @@ class database(fs_template.FsBased):
             except OSError as e:
                 raise KeyError(d, f"access failure: {e}") from e
             for l in subdirs:
-                if l.endswith(".cpickle"):
+                # skip the temporaries of (possibly interrupted) stores, see _setitem
+                if l.endswith(".cpickle") or l.startswith(".update."):
                     continue
                 p = pjoin(d, l)
                 try:
